@@ -82,8 +82,23 @@ class _Bool(Sort):
     return z3.BoolSort()
 
 
+class _BV64(Sort):
+  name = 'BV64'
+
+  def z3(self):
+    return z3.BitVecSort(64)
+
+
 INT = _Int()
 BOOL = _Bool()
+BV64 = _BV64()
+POW2 = z3.Function('pow2_64', z3.IntSort(), z3.BitVecSort(64))
+
+
+def pow2_facts():
+  """Definition of pow2_64 as a table: pow2_64(k) is the word with only bit k set (0 <= k < 64)."""
+  k = z3.Int('k')
+  return [POW2(c) == z3.BitVecVal(1 << c, 64) for c in range(64)]
 
 
 class Uninterp(Sort):
